@@ -452,7 +452,11 @@ def r4_5(repo: Repo) -> RuleResult:
         rr.bad(f, "buffer-full trigger", "buffer-full test is `%s`, not `coo.ind[0] == coo.key.shape[0] - 1`: the next append can write past the end" % t, ifs[1].lineno)
     # (b) merge_sum_duplicates: the three accumulate-or-advance blocks are the same
     f = repo.func(COO_FILE, "merge_sum_duplicates")
-    blocks = [n for n in ast.walk(f.node) if isinstance(n, ast.If) and "result_key[result_ptr]" in norm(n.test) and "coo.key[this_ptr]" in norm(n.test)]
+    blocks = [n for n in ast.walk(f.node) if isinstance(n, ast.If) and isinstance(n.test, ast.Compare) and isinstance(n.test.ops[0], ast.Eq)
+              and isinstance(n.test.left, ast.Subscript) and isinstance(n.test.comparators[0], ast.Subscript)
+              and len(n.body) == 1 and isinstance(n.body[0], (ast.AugAssign, ast.Assign))
+              and isinstance(n.body[0].target if isinstance(n.body[0], ast.AugAssign) else n.body[0].targets[0], ast.Subscript)
+              and n.orelse and isinstance(n.orelse[0], ast.AugAssign) and isinstance(n.orelse[0].target, ast.Name)]
     if len(blocks) != 3:
         raise AnalysisError("R4.5: expected 3 accumulate-or-advance blocks in merge_sum_duplicates, found %d" % len(blocks))
     forms = {norm(x) for x in blocks}
@@ -460,39 +464,47 @@ def r4_5(repo: Repo) -> RuleResult:
         rr.ok(f, "accumulate-or-advance x3", "the three copies (merge loop, left tail, right tail) are identical", blocks[0].lineno)
     else:
         rr.bad(f, "accumulate-or-advance x3", "the three copies of the accumulate-or-advance step differ: an entry is summed into / written to the wrong slot on one of the paths", blocks[0].lineno)
-    # (c) coo_increase_mem: the four array copies follow one pattern and the tuple is rebuilt in field order
+    # (c) coo_increase_mem: the array copies follow one pattern and the tuple is rebuilt in field order
     f = repo.func(COO_FILE, "coo_increase_mem")
+    param = f.params[0]
     groups = []
     cur = None
     for st in f.node.body:
-        if isinstance(st, ast.Assign) and norm(st.targets[0]) == "temp":
+        if isinstance(st, ast.Assign) and isinstance(st.value, ast.Attribute) and norm(st.value.value) == param and isinstance(st.targets[0], ast.Name):
             cur = [st]
             groups.append(cur)
         elif cur is not None and isinstance(st, ast.Assign):
             cur.append(st)
     pats = set()
-    for g in groups[:4]:
-        field = norm(g[0].value).split(".")[-1]
-        new = [x for x in g if isinstance(x.targets[0], ast.Name) and x.targets[0].id.startswith("new_") and x.targets[0].id != "new_size"]
-        if not new:
-            raise AnalysisError("R4.5: copy block for coo.%s not recognised" % field)
-        nm = new[0].targets[0].id
-        if nm != "new_" + field:
-            pats.add("MISNAMED %s for coo.%s" % (nm, field))
-        body = _norm_block([x for x in g if not (isinstance(x.value, ast.Call) and norm(x.value.func) == "np.zeros")], {nm: "NEW", field: "FIELD"})
-        pats.add(body)
+    new_of_field = {}
+    for g in groups:
+        field = g[0].value.attr
+        tmp = g[0].targets[0].id
+        zeros = [x for x in g if isinstance(x.value, ast.Call) and norm(x.value.func) == "np.zeros" and isinstance(x.targets[0], ast.Name)]
+        if not zeros:
+            raise AnalysisError("R4.5: copy block for %s.%s not recognised" % (param, field))
+        nm = zeros[0].targets[0].id
+        new_of_field[field] = nm
+        sizes = [x.targets[0].id for x in g if isinstance(x.targets[0], ast.Name) and x is not zeros[0] and x is not g[0]]
+        mapping = {nm: "NEW", tmp: "TEMP"}
+        for z in sizes:
+            mapping[z] = "SIZE"
+        copies = [x for x in g if isinstance(x.targets[0], ast.Subscript)]
+        pats.add(_norm_block(copies, mapping))
+        if len(copies) != 1:
+            pats.add("no single copy statement for %s" % field)
     ctor = [c for c in repo.calls_in(f) if norm(c.func) == "CooArray"]
     fields = None
     for n in repo.module(COO_FILE).tree.body:
         if isinstance(n, ast.Assign) and norm(n.targets[0]) == "CooArray":
             fields = [e.value for e in n.value.args[1].elts]
-    order_ok = bool(ctor) and fields is not None and all(
-        norm(a) in ("new_" + fld, "coo." + fld) for a, fld in zip(ctor[0].args, fields)
+    order_ok = bool(ctor) and fields is not None and len(ctor[0].args) == len(fields) and all(
+        norm(a) == new_of_field.get(fld, "%s.%s" % (param, fld)) for a, fld in zip(ctor[0].args, fields)
     )
-    if len(pats) == 1 and order_ok:
-        rr.ok(f, "buffer copies", "row/col/val/key copied with one pattern; CooArray rebuilt in field order %s" % fields, f.node.lineno)
+    if len(pats) == 1 and order_ok and len(groups) >= 4:
+        rr.ok(f, "buffer copies", "%d buffers copied with one pattern; CooArray rebuilt in field order %s" % (len(groups), fields), f.node.lineno)
     else:
-        rr.bad(f, "buffer copies", "the four buffer copies do not follow one pattern / the CooArray is not rebuilt in field order: %s"
+        rr.bad(f, "buffer copies", "the buffer copies do not follow one pattern / the CooArray is not rebuilt with each field's own new buffer in field order: %s"
                % sorted(p[:60] for p in pats), f.node.lineno)
     return rr
 
